@@ -1,7 +1,65 @@
 import Driver.Common
+import Driver.C05
+/-
+C06 driver: the rolling-appender case format of `Driver/C05.lean` with a size trigger.
+The specification is evaluated on the implementation's observation: at every policy
+consultation the length shown equals the true size on disk (probe installed by the harness's
+`Policy` wrapper) and equals the size before the append plus the record's bytes; the active file
+is gone after the append iff that size exceeded the limit; after a successful append the active
+file is absent or holds at most `limit` bytes; at (re)open the file is kept (append mode) or
+emptied (truncate mode).
+-/
 namespace Driver.C06
-open Driver
+open Log4rs.Proto Log4rs.Rolling Driver Driver.C05
+open Driver.C04 (recBytes)
 
-def handle : Handler := fun _ _ => badCase "unimplemented"
+def activeSize (snap : Spec.Snap) : Option Nat := (snap.get? activePath).map List.length
+
+/-- walk the history; `prev` = size of the active file before the op (`none`: absent) -/
+def specGo (c : Case) (limit : Nat) : Nat → Option Nat → List OpSpec → List ObsEntry → Option String
+  | _, _, [], [] => none
+  | k, prev, op :: ops, e :: es =>
+    let now := activeSize e.snap
+    let loc := " at op " ++ toString k
+    if e.res = "PANIC" then some ("panic" ++ loc) else
+    match op.op, op.rec? with
+    | .append _ _, some r =>
+      match e.consult with
+      | none => some ("policy not consulted" ++ loc)
+      | some (shown, actual) =>
+        let expect := prev.getD 0 + (recBytes r.chunks).length
+        if shown ≠ actual then some ("shown " ++ toString shown ++ " != on-disk " ++ toString actual ++ loc)
+        else if shown ≠ expect then some ("size " ++ toString shown ++ " != previous size + record = " ++ toString expect ++ loc)
+        else if e.res = "ok" ∧ (now.isNone ≠ (shown > limit)) then
+          some ((if shown > limit then "no rotation although size > limit" else "rotation although size <= limit") ++ loc)
+        else if e.res = "ok" ∧ (now.getD 0) > limit then some ("active file larger than limit after append" ++ loc)
+        else specGo c limit (k + 1) now ops es
+    | .restart, _ =>
+      let expect := if c.appendMode then prev.getD 0 else 0
+      if now ≠ some expect then some ("size after reopen is not " ++ toString expect ++ loc)
+      else specGo c limit (k + 1) now ops es
+    | _, _ => if now ≠ prev then some ("file changed by a clock tick" ++ loc) else specGo c limit (k + 1) now ops es
+  | k, _, _, _ => some ("observation arity at op " ++ toString k)
+
+def handle : Handler := fun cas obs =>
+  withSeq cas obs fun c ops tr es =>
+    match c.trig with
+    | .size limit =>
+      let model := encList "," (tr.map renderEntry)
+      let spec := match es with
+        | [] => "FAIL:empty observation;sig=" ++ c.sig "C06"
+        | e0 :: rest =>
+          let open0 := if c.appendMode then c.preActive.getD 0 else 0
+          if activeSize e0.snap ≠ some open0 then "FAIL:size after open is not " ++ toString open0 ++ ";sig=" ++ c.sig "C06" ++ "-open"
+          else match specGo c limit 0 (some open0) ops rest with
+            | none => "ok"
+            | some why => "FAIL:" ++ why ++ ";sig=" ++ c.sig "C06"
+      let sizes := ops.filterMap (fun o => o.rec?.map (fun r => (recBytes r.chunks).length))
+      let tags := modelTags c ops tr ++ ["limit-" ++ toString limit] ++
+        (if sizes.any (· = limit) then ["record=limit"] else []) ++
+        (if sizes.any (· = limit + 1) then ["record=limit+1"] else []) ++
+        (if (c.preActive.getD 0) > limit then ["pre>limit"] else [])
+      { model, spec, tags := if ops.isEmpty then "trivial" :: tags else tags }
+    | _ => badCase "C06 needs a size trigger"
 
 end Driver.C06
